@@ -43,9 +43,17 @@ KnownClientDeviations == {"client.gob_zero_value_missing"}
 Innermost(S) == IF "method" \in S THEN "method" ELSE IF "service" \in S THEN "service" ELSE "api"
 
 \* an error of the table: `level` = innermost declaration level (kept for readers of the base space),
-\* `status` = status of the innermost response
+\* `status` = status of the innermost response AS THE DESIGN WRITES IT, `form` = the way it is written there
 Entry(n, d, mp, ty, st, fl) ==
-  [name |-> n, decl |-> d, maps |-> mp, level |-> Innermost(d), type |-> ty, status |-> st, flags |-> fl]
+  [name |-> n, decl |-> d, maps |-> mp, level |-> Innermost(d), type |-> ty, status |-> st, flags |-> fl, form |-> "arg"]
+\* The ways the DSL lets a design write the status of an error response (all accepted by the unchanged tree;
+\* Response(name) alone is refused: "too few arguments"):
+\*   arg      Response(name, status)                       argfn    Response(name, status, func() { Description(..) })
+\*   code     Response(name, func() { Code(status); .. })  swapped  Response(status, name)
+\*   default  Response(name, func() { Description(..) })   no status written: the documented default, 400
+Forms == {"arg", "argfn", "code", "swapped", "default"}
+FormSeq == <<"arg", "argfn", "code", "swapped">>
+WithForm(e, f) == [e EXCEPT !.form = f, !.status = IF f = "default" THEN 400 ELSE e.status]
 
 \* What the DSL accepts (checked on the unchanged tree: anything else is refused by eval with "Error .. does
 \* not match an error defined in the service / API"): a service level response needs the error declared in the
@@ -81,6 +89,12 @@ Place1Tables == {<<a>> : a \in PlacedPlain("e1", 404)}
 EncTables == {<<Decl("e1", "method", "result", 404, fl)>> : fl \in DeclFlags \cup {[t |-> TRUE, tmp |-> FALSE, f |-> FALSE]}}
              \cup {<<Decl("e1", "method", "custom", 404, NoFlags)>>,
                    <<Decl("e1", "method", "result", 409, [t |-> FALSE, tmp |-> TRUE, f |-> FALSE]), Decl("e2", "service", "custom", 409, NoFlags)>>}
+\* ---- "form": every way of writing the status, in the method's, the service's and the API's HTTP expression (the API's
+\* response taken directly and through the copy in the service's list), ErrorResult and user type
+FormPlacements == {[decl |-> {"method"}, maps |-> {"method"}], [decl |-> {"service"}, maps |-> {"service"}],
+                   [decl |-> {"method", "api"}, maps |-> {"api"}], [decl |-> {"service", "api"}, maps |-> {"api"}]}
+FormTables == {<<WithForm(Entry("e1", p.decl, p.maps, "result", 409, NoFlags), f)>> : p \in FormPlacements, f \in Forms}
+              \cup {<<WithForm(Decl("e1", "method", "custom", 409, NoFlags), f)>> : f \in Forms}
 \* all ordered pairs, on one status or on two
 PairTables == {<<a, b>> : a \in PlacedPlain("e1", 404), b \in PlacedPlain("e2", 404) \cup PlacedPlain("e2", 409)}
 \* ---- "pairq": one pair per ordered pair of resolution paths, the members rotated by Seed (the quick tier's cut
@@ -99,11 +113,13 @@ Members(c, n, st) ==      \* the plain errors of path c, ErrorResult ones first
       ok(e) == PClass(e.decl, e.maps) = c /\ (e.type = "custom" => e.decl # {"api"})
   IN SelectSeq(mk("result") \o mk("custom"), ok)
 Pick(c, n, st, k) == LET ms == Members(c, n, st) IN ms[(k % Len(ms)) + 1]
-PairQTables == {<<Pick(ClassSeq[i], "e1", 404, Seed + 3 * i + 5 * j),
-                  Pick(ClassSeq[j], "e2", IF (Seed + i + j) % 2 = 0 THEN 404 ELSE 409, (Seed \div 3) + 5 * i + 3 * j)>> : i \in 1..Len(ClassSeq), j \in 1..Len(ClassSeq)}
+PairQTables == {<<WithForm(Pick(ClassSeq[i], "e1", 404, Seed + 3 * i + 5 * j), FormSeq[((Seed + i + 2 * j) % 4) + 1]),
+                  WithForm(Pick(ClassSeq[j], "e2", IF (Seed + i + j) % 2 = 0 THEN 404 ELSE 409, (Seed \div 3) + 5 * i + 3 * j), FormSeq[((Seed + 3 * i + j) % 4) + 1])>>
+                : i \in 1..Len(ClassSeq), j \in 1..Len(ClassSeq)}
 
 \* the errors a table of the "triple" space is grown from
-Grown(n) == (UNION {Placed(n, "result", st, fl) : st \in Statuses, fl \in DeclFlags}) \cup (UNION {Placed(n, "custom", st, NoFlags) : st \in Statuses})
+GrownArg(n) == (UNION {Placed(n, "result", st, fl) : st \in Statuses, fl \in DeclFlags}) \cup (UNION {Placed(n, "custom", st, NoFlags) : st \in Statuses})
+Grown(n) == {WithForm(e, f) : e \in GrownArg(n), f \in Forms}
 
 \* default status of an undeclared service error (same table as ErrorAlgebra!HTTPStatus)
 DefaultStatus(name, fl) ==
@@ -158,8 +174,11 @@ Source(i) == LET e == table[i] IN
   ELSE IF "api" \in e.maps /\ ~(Loop(i) = "method" /\ Sticky(i)) THEN "api"
   ELSE "none"
 Resolved(i) == Source(i) # "none"
+\* the status the innermost response ends up with: the one the design wrote
+\* hypothetical (vacuity guard): the default is applied after the response function and overwrites a Code(..) in it
+Written(e) == IF "dsl.code_in_function_overwritten" \in Deviations /\ e.form = "code" THEN 400 ELSE e.status
 SourceLevel(i) == IF Source(i) \in {"copied", "api"} THEN "api" ELSE Source(i)
-WireStatus(i) == IF SourceLevel(i) = Innermost(table[i].maps) THEN table[i].status ELSE Decoy
+WireStatus(i) == IF SourceLevel(i) = Innermost(table[i].maps) THEN Written(table[i]) ELSE Decoy
 \* the path of error i through the resolution (strata for sampling; part of the emitted case)
 Path(i) == <<IF "method" \in table[i].decl THEN "M" ELSE IF "service" \in table[i].decl THEN "S" ELSE "A", Source(i)>>
 
@@ -172,6 +191,7 @@ Init ==
      \/ "pair" \in Spaces /\ space = "pair" /\ table \in PairTables
      \/ "pairq" \in Spaces /\ space = "pairq" /\ table \in PairQTables
      \/ "enc" \in Spaces /\ space = "enc" /\ table \in EncTables
+     \/ "form" \in Spaces /\ space = "form" /\ table \in FormTables
      \/ "triple" \in Spaces /\ space = "triple" /\ table = <<>>
   /\ callno = 0 /\ outcome = NoOutcome /\ pc = "design"
   /\ status = 0 /\ goaerr = "none" /\ ctype = "none" /\ bodyname = "none" /\ bodyflags = NoFlags /\ writes = 0
@@ -255,7 +275,8 @@ Spec == Init /\ [][Next]_vars
 WellFormed == \A i \in 1..Len(table) :
    /\ Accepted(table[i].decl, table[i].maps) /\ OfMethod(table[i].decl, table[i].maps) /\ table[i].maps # {}
    /\ table[i].name = Names[i]
-PairQInPair == space = "pairq" => /\ table \in PairTables /\ Len(PlacementSeq) = Cardinality(Placements)
+   /\ table[i].form \in Forms /\ (table[i].form = "default" => table[i].status = 400)
+PairQInPair == space = "pairq" => /\ [k \in 1..Len(table) |-> [table[k] EXCEPT !.form = "arg"]] \in PairTables /\ Len(PlacementSeq) = Cardinality(Placements)
                                    /\ {PClass(p.decl, p.maps) : p \in Placements} = {ClassSeq[k] : k \in 1..Len(ClassSeq)}
 \* without deviations every error takes the path its placement says (the strata of the sampling are real)
 PathsAsPlaced == Deviations = {} => \A i \in 1..Len(table) : Path(i) = PClass(table[i].decl, table[i].maps)
